@@ -233,13 +233,16 @@ package netflow9
 //@   modifies b
 
 // a cache that decoding can use without crashing, whatever file content it was loaded from (C11, C01)
+// the result is either the cache decoded from the file or a fresh cache without templates
+//@ pred allEmpty9(m MemCache) = forall j :: m.off <= j && j < m.off + len(m) ==> m.arr[j] != nil && len(m.arr[j].Templates) == 0
 //@ func GetCache
+//@   exitassert [loadedOrEmpty] sameview(result, mem.Cache) || allEmpty9(result)
 //@   opt nolock the cache being loaded or built is not shared before GetCache returns
 //@   opt replayprobe result.retrieve(300, net.IP{10, 0, 0, 1})
 //@   opt replayimports net
 //@   ensures wellFormed9(result)
 //@   loop 1
-//@     invariant 0 <= i && i <= 32 && len(m) == 32 && (forall j :: m.off <= j && j < m.off + i ==> m.arr[j] != nil && !m.arr[j].Templates.isnil)
+//@     invariant 0 <= i && i <= 32 && len(m) == 32 && (forall j :: m.off <= j && j < m.off + i ==> m.arr[j] != nil && !m.arr[j].Templates.isnil && len(m.arr[j].Templates) == 0)
 //@     decreases 32 - i
 
 //@ func (MemCache).valid
